@@ -10,10 +10,10 @@
 //!   codec bound <D> <k> <len>           => <ok|err> <maxreq>
 //!
 //! Oracle evaluated here on the implementation (`#ORACLE-FAIL C11 …`): a panic, abort, hang
-//! (> 20 s without progress) or an allocation request above `16·len + k_D` in any decoder — except at
-//! the three call sites for which the Lean model itself predicts the panic (`MerkleProof::read`
-//! capacity, `MerkleProof::from_hex` unwrap, `util::from_hex` char boundary): there the driver compares
-//! the outcome class with the model and the defect is reported through `#KNOWN-PROBE` lines.
+//! (> 20 s without progress) or an allocation request above `16·len + k_D` in any decoder.  The five
+//! defects this harness found first (`MerkleProof::read` capacity, `MerkleProof::from_hex` unwrap,
+//! `util::from_hex` char boundary, `Segment::validate` unwrap) are repaired in /repo; their witnesses are
+//! replayed as regression probes (`#ORACLE-FAIL` if one of them panics or over-allocates again).
 use grin_chain::txhashset::BitmapSegment;
 use grin_core::core::hash::Hash;
 use grin_core::core::merkle_proof::MerkleProof;
@@ -314,7 +314,7 @@ const BOUNDARY: [u64; 8] = [0, 1, u64::MAX, 1 << 32, 1 << 63, u64::MAX - 1, 0xff
 /// offsets to mutate: all of them for short inputs (or `dense`), otherwise the first 24 (tags and
 /// counts live there) plus an even sample of the rest
 fn offsets(n: usize, dense: bool) -> Vec<usize> {
-	if dense || n <= 40 {
+	if (dense && n <= 160) || n <= 40 {
 		return (0..n).collect();
 	}
 	let mut v: Vec<usize> = (0..24).collect();
@@ -637,8 +637,8 @@ fn hdr_stream(cx: &mut Ctx) {
 }
 
 fn native_streams(cx: &mut Ctx) {
-	let s = budget(cx, 2, 24);
-	let rn = budget(cx, 150, 3000);
+	let s = budget(cx, 2, 6);
+	let rn = budget(cx, 150, 800);
 	stream::<Hand>(cx, "hand", 100_000 + 4096, &[100_000], &|r, _| {
 		sv(
 			&Hand {
@@ -666,7 +666,7 @@ fn native_streams(cx: &mut Ctx) {
 			1,
 		)
 	}, s, rn);
-	stream::<PeerAddr>(cx, "peeraddr", 4096, &[], &|r, _| sv(&gen_addr(r), 1), budget(cx, 4, 60), rn);
+	stream::<PeerAddr>(cx, "peeraddr", 4096, &[], &|r, _| sv(&gen_addr(r), 1), budget(cx, 4, 12), rn);
 	stream::<PeerError>(cx, "peererror", 100_000 + 4096, &[100_000], &|r, _| {
 		sv(
 			&PeerError {
@@ -698,7 +698,7 @@ fn native_streams(cx: &mut Ctx) {
 	stream::<PeerAddrs>(cx, "body:6", 8192 + 4096, &[256], &|r, _| {
 		let n = *r.pick(&[0usize, 1, 2, 5, 17]);
 		sv(&PeerAddrs { peers: (0..n).map(|_| gen_addr(r)).collect() }, 1)
-	}, budget(cx, 3, 40), rn);
+	}, budget(cx, 3, 8), rn);
 	stream::<Locator>(cx, "body:7", 4096, &[20], &|r, _| {
 		let n = *r.pick(&[0usize, 1, 2, 19, 20]);
 		sv(&Locator { hashes: (0..n).map(|_| hash32(r)).collect() }, 1)
@@ -739,8 +739,8 @@ fn native_streams(cx: &mut Ctx) {
 }
 
 fn segment_streams(cx: &mut Ctx) {
-	let s = budget(cx, 2, 30);
-	let rn = budget(cx, 150, 2000);
+	let s = budget(cx, 2, 5);
+	let rn = budget(cx, 150, 800);
 	let caps = [1_000_000u64, 1024];
 	stream::<SegmentProof>(cx, "segproof", 32 * 1024 + 4096, &caps, &|r, _| {
 		let n = r.below(6);
@@ -763,42 +763,27 @@ fn segment_streams(cx: &mut Ctx) {
 			b.extend_from_slice(&r.bytes(675));
 			b
 		})
-	}, budget(cx, 2, 12), rn);
+	}, budget(cx, 2, 3), rn);
 	stream::<Segment<TxKernel>>(cx, "seg:kernel", 81920 + 1024 * 128 + 4096, &caps, &|r, ver| {
 		gen_segment_bytes(r, &|r| gen_kernel_bytes(r, ver))
 	}, s, rn);
 }
 
-/// `MerkleProof::read`: in-process only outside the range where the pre-allocation would reach the
-/// allocator with a huge size (2^16 < path_len < 2^58): there the process aborts — probed in a child
+/// `MerkleProof::read` (pre-allocation capped at 64 hashes since 28eb6068d): every path_len in-process
 fn merkle_stream(cx: &mut Ctx) {
-	let s = budget(cx, 3, 40);
-	let mut skipped = 0u64;
-	let mut run = |cx: &mut Ctx, m: &[u8], buf: bool| {
-		if m.len() >= 16 {
-			let mut a = [0u8; 8];
-			a.copy_from_slice(&m[8..16]);
-			let pl = u64::from_be_bytes(a);
-			if pl > (1 << 16) && pl < (1 << 58) {
-				skipped += 1;
-				return;
-			}
-		}
-		cx.dec::<MerkleProof, _>("merkle", buf, 1, m, 1 << 26, canon_w::<MerkleProof>(1), true);
-	};
+	let s = budget(cx, 3, 8);
 	for i in 0..s {
 		let mut r = Rng::new(cx.rng.next());
-		let n = *r.pick(&[0usize, 1, 2, 7, 20]);
+		let n = *r.pick(&[0usize, 1, 2, 7, 20, 64, 65]);
 		let base = sv(&MerkleProof { mmr_size: pick_u64(&mut r), path: (0..n).map(|_| hash32(&mut r)).collect() }, 1);
-		for (j, m) in mutations(&mut r, &base, &[1 << 58, 1 << 16], &[0; 40], cx.thorough).iter().enumerate() {
-			run(cx, m, (i + j) % 2 == 0);
+		for (j, m) in mutations(&mut r, &base, &[1 << 58, 1 << 16, 64], &[0; 40], cx.thorough).iter().enumerate() {
+			cx.dec::<MerkleProof, _>("merkle", (i + j) % 2 == 0, 1, m, 4096, canon_w::<MerkleProof>(1), false);
 		}
 	}
 	let mut r = Rng::new(cx.rng.next());
-	for (j, m) in random_inputs(&mut r, budget(cx, 300, 3000), 100).iter().enumerate() {
-		run(cx, m, j % 2 == 0);
+	for (j, m) in random_inputs(&mut r, budget(cx, 300, 1500), 100).iter().enumerate() {
+		cx.dec::<MerkleProof, _>("merkle", j % 2 == 0, 1, m, 4096, canon_w::<MerkleProof>(1), false);
 	}
-	cx.out.raw(&format!("#STAT merkle: {} mutated inputs with 2^16 < path_len < 2^58 not run in-process (the pre-allocation would reach the allocator; probed in a child process)", skipped));
 }
 
 fn hex_streams(cx: &mut Ctx) {
@@ -812,7 +797,7 @@ fn hex_streams(cx: &mut Ctx) {
 	];
 	let alphabet: Vec<char> = "0123456789abcdefABCDEF+-xX \t\nzg€éÿ𝔾\u{a0}\u{2028}".chars().collect();
 	let mut r = Rng::new(cx.rng.next());
-	for _ in 0..budget(cx, 2500, 30000) {
+	for _ in 0..budget(cx, 2500, 12000) {
 		let n = r.below(12);
 		let ascii_only = r.chance(1, 2);
 		let s: String = (0..n)
@@ -849,16 +834,22 @@ fn hex_streams(cx: &mut Ctx) {
 				st.err += 1;
 				format!("err {}", maxreq)
 			}
-			Out1::Panic(_) => {
+			Out1::Panic(msg) => {
 				st.panic += 1;
+				cx.oracle_fails += 1;
+				cx.out.raw(&format!("#ORACLE-FAIL C11 panic in util::from_hex ({}) on the string with UTF-8 bytes {}", msg.replace('\n', " "), hex(s.as_bytes())));
 				format!("panic {}", maxreq)
 			}
 		};
+		if maxreq > 16 * s.len() + 4096 {
+			cx.oracle_fails += 1;
+			cx.out.raw(&format!("#ORACLE-FAIL C11 over-allocation in util::from_hex: {} bytes for the string {}", maxreq, hex(s.as_bytes())));
+		}
 		cx.out.line(&lhs, &rhs);
 	}
 	// MerkleProof::from_hex
 	let mut hexes: Vec<String> = vec!["zz".into(), "0".into(), "".into(), "00".into(), "€a".into(), " 0x00 ".into()];
-	for _ in 0..budget(cx, 200, 2000) {
+	for _ in 0..budget(cx, 200, 1000) {
 		let n = *r.pick(&[0usize, 1, 2, 3]);
 		let p = MerkleProof { mmr_size: pick_u64(&mut r), path: (0..n).map(|_| hash32(&mut r)).collect() };
 		let mut h = p.to_hex();
@@ -895,18 +886,24 @@ fn hex_streams(cx: &mut Ctx) {
 				st.err += 1;
 				format!("err {}", maxreq)
 			}
-			Err(_) => {
+			Err(msg) => {
 				st.panic += 1;
+				cx.oracle_fails += 1;
+				cx.out.raw(&format!("#ORACLE-FAIL C11 panic in MerkleProof::from_hex ({}) on the string with UTF-8 bytes {}", msg.replace('\n', " "), hex(h.as_bytes())));
 				format!("panic {}", maxreq)
 			}
 		};
+		if maxreq > 16 * h.len() + 4096 {
+			cx.oracle_fails += 1;
+			cx.out.raw(&format!("#ORACLE-FAIL C11 over-allocation in MerkleProof::from_hex: {} bytes for the string {}", maxreq, hex(h.as_bytes())));
+		}
 		cx.out.line(&format!("codec merklehex {}", hex(h.as_bytes())), &rhs);
 	}
 }
 
 /// payload decoders owned by other domains: no-panic and allocation bound only
 fn payload_streams(cx: &mut Ctx) {
-	let rn = budget(cx, 120, 4000);
+	let rn = budget(cx, 120, 800);
 	let mut r = Rng::new(cx.rng.next());
 	let mbs_k = 1 << 20; // additive constant granted to the big payload types
 	for v in VERSIONS {
@@ -938,40 +935,45 @@ fn payload_streams(cx: &mut Ctx) {
 }
 
 // ---------------------------------------------------------------------------------------------
-// probes of the recorded defects
+// regression probes: the witnesses of the defects repaired in /repo (fixed: entries of known_findings.json)
+
+fn regress(cx: &mut Ctx, tag: &str, ok: bool, detail: String) {
+	if ok {
+		cx.out.raw(&format!("#STAT regression probe {}: repaired behaviour confirmed ({})", tag, detail));
+	} else {
+		cx.oracle_fails += 1;
+		cx.out.raw(&format!("#ORACLE-FAIL C11 regression of repaired defect {}: {}", tag, detail));
+	}
+}
 
 fn probe_in_process(cx: &mut Ctx) {
-	// 1. MerkleProof::read capacity overflow (path_len = 2^58)
-	let mut w = be64(0).to_vec();
-	w.extend_from_slice(&be64(1 << 58));
-	let (r, _) = read_with::<MerkleProof>(false, &w, 1);
-	if let Err(msg) = r {
-		cx.out.raw(&format!(
-			"#KNOWN-PROBE C11 merkleproof-read-capacity-panic MerkleProof::read panicked ('{}') on input {} (mmr_size=0, path_len=2^58): Vec::with_capacity(path_len) from the wire",
-			msg, hex(&w)
-		));
-	} else {
-		cx.out.raw("#STAT probe merkleproof-read-capacity-panic: NOT reproduced (no panic)");
+	// 1. MerkleProof::read: path_len = 2^58 (was: capacity-overflow panic) and 2^32 (was: 128 GiB request)
+	for (tag, pl) in [("merkleproof-read-capacity-panic", 1u64 << 58), ("merkleproof-read-prealloc", 1u64 << 32)] {
+		for buf in [false, true] {
+			let mut w = be64(0).to_vec();
+			w.extend_from_slice(&be64(pl));
+			let (r, maxreq) = read_with::<MerkleProof>(buf, &w, 1);
+			let ok = matches!(r, Ok(Err(_))) && maxreq <= 4096;
+			regress(cx, tag, ok, format!(
+				"MerkleProof::read on {} via {}: {} largest request {}",
+				hex(&w), if buf { "BufReader" } else { "BinReader" },
+				match &r { Ok(Ok(_)) => "ok".to_string(), Ok(Err(e)) => format!("err {}", err_name(e)), Err(p) => format!("PANIC {}", p) },
+				maxreq
+			));
+		}
 	}
-	let (r, _) = read_with::<MerkleProof>(true, &w, 1);
-	cx.out.raw(&format!("#STAT probe merkleproof-read-capacity-panic via BufReader: {}", if r.is_err() { "panic" } else { "no panic" }));
-	// 2. util::from_hex char boundary
+	// 2. util::from_hex / Hash::from_hex on a multi-byte character
 	let (r, _) = measured(|| grin_util::from_hex("€a"));
-	if let Err(msg) = r {
-		cx.out.raw(&format!("#KNOWN-PROBE C11 util-from-hex-char-boundary util::from_hex(\"€a\") panicked ('{}')", msg.replace('\n', " ")));
-	} else {
-		cx.out.raw("#STAT probe util-from-hex-char-boundary: NOT reproduced");
+	regress(cx, "util-from-hex-char-boundary", matches!(r, Ok(Err(_))), format!("util::from_hex(\"€a\") -> {}", match &r { Ok(Ok(_)) => "ok".into(), Ok(Err(_)) => "err".into(), Err(p) => format!("PANIC {}", p.replace('\n', " ")) }));
+	let (r, _) = measured(|| Hash::from_hex("€a").is_err());
+	regress(cx, "util-from-hex-char-boundary", matches!(r, Ok(true)), format!("Hash::from_hex(\"€a\") -> {:?}", r.map_err(|p| format!("PANIC {}", p.replace('\n', " ")))));
+	// 3. MerkleProof::from_hex on non-hex / odd length / non-ASCII
+	for h in ["zz", "0", "€a"] {
+		let hs = h.to_string();
+		let (r, _) = measured(move || MerkleProof::from_hex(&hs).is_err());
+		regress(cx, "merkleproof-from-hex-unwrap", matches!(r, Ok(true)), format!("MerkleProof::from_hex({:?}) -> {:?}", h, r.map_err(|p| format!("PANIC {}", p.replace('\n', " ")))));
 	}
-	let (r, _) = measured(|| Hash::from_hex("€a"));
-	cx.out.raw(&format!("#STAT probe Hash::from_hex(\"€a\"): {}", if r.is_err() { "panic" } else { "no panic" }));
-	// 3. MerkleProof::from_hex unwrap
-	let (r, _) = measured(|| MerkleProof::from_hex("zz"));
-	if let Err(msg) = r {
-		cx.out.raw(&format!("#KNOWN-PROBE C11 merkleproof-from-hex-unwrap MerkleProof::from_hex(\"zz\") panicked ('{}')", msg.replace('\n', " ")));
-	} else {
-		cx.out.raw("#STAT probe merkleproof-from-hex-unwrap: NOT reproduced");
-	}
-	// 4. Segment::validate on an unsolicited identifier whose range holds no position
+	// 4. Segment::validate on an unsolicited identifier whose range holds no position: must be Err
 	for (h, idx) in [(0u8, 1u64 << 40), (11, 5), (200, 1), (63, 3)] {
 		let mut b = vec![h];
 		b.extend_from_slice(&be64(idx));
@@ -979,24 +981,12 @@ fn probe_in_process(cx: &mut Ctx) {
 		b.extend_from_slice(&be64(0)); // no leaves
 		b.extend_from_slice(&be64(0)); // empty proof
 		let seg: Segment<TxKernel> = ser::deserialize(&mut &b[..], ProtocolVersion(1), DeserializationMode::default()).unwrap();
-		let (r, _) = measured(move || seg.validate(10, None, Hash::from_vec(&[0u8; 32])).is_ok());
-		match r {
-			Err(msg) => cx.out.raw(&format!(
-				"#KNOWN-PROBE C11 segment-validate-unwrap Segment::<TxKernel>::validate(mmr_size=10, None, _) panicked ('{}') for identifier (height={}, idx={}) deserialised from {}",
-				msg.replace('\n', " "), h, idx, hex(&b)
-			)),
-			Ok(v) => cx.out.raw(&format!("#STAT probe segment-validate-unwrap ({},{}): no panic, valid={}", h, idx, v)),
-		}
+		let (r, _) = measured(move || seg.validate(10, None, Hash::from_vec(&[0u8; 32])).is_err());
+		regress(cx, "segment-validate-unwrap", matches!(r, Ok(true)), format!(
+			"Segment::<TxKernel>::validate(10, None, _) for identifier (height={}, idx={}) from {} -> {:?}",
+			h, idx, hex(&b), r.map_err(|p| format!("PANIC {}", p.replace('\n', " ")))
+		));
 	}
-}
-
-/// child: `MerkleProof::read` with path_len = 2^32 → 128 GiB request → refused by the allocator → abort
-fn probe_huge_alloc() {
-	let mut w = be64(0).to_vec();
-	w.extend_from_slice(&be64(1 << 32));
-	let r = ser::deserialize::<MerkleProof, _>(&mut &w[..], ProtocolVersion(1), DeserializationMode::default());
-	// only reached if the allocation was granted
-	println!("#STAT probe merkleproof-read-prealloc: allocation granted, result is_err={} maxreq={}", r.is_err(), MAX_REQ.load(Ordering::Relaxed));
 }
 
 // ---------------------------------------------------------------------------------------------
@@ -1004,10 +994,6 @@ fn probe_huge_alloc() {
 fn child_main(mode: &str) {
 	quiet_panics();
 	global::set_local_chain_type(ChainTypes::AutomatedTesting);
-	if mode == "probe-huge-alloc" {
-		probe_huge_alloc();
-		return;
-	}
 	// watchdog: no progress for 20 s = hang
 	std::thread::spawn(|| {
 		let mut last = HEARTBEAT.load(Ordering::Relaxed);
@@ -1119,22 +1105,6 @@ fn main() {
 				tail.replace('\n', " | ")
 			);
 		}
-	}
-	// 2. the huge pre-allocation probe, expected to abort
-	let mut buf: Vec<u8> = Vec::new();
-	let (code, sig, err, _) = run_child("probe-huge-alloc", &mut buf);
-	let _ = sink.write_all(&buf);
-	let refused: Vec<&str> = err.lines().filter(|l| l.starts_with("#ALLOC-REFUSED")).collect();
-	if code != Some(0) {
-		let _ = writeln!(
-			sink,
-			"#KNOWN-PROBE C11 merkleproof-read-prealloc MerkleProof::read on the 16 bytes 0000000000000000 0000000100000000 (path_len=2^32) asked the allocator for {} bytes and the process aborted (exit {:?} signal {:?}); requests above 4 GiB are refused by the harness allocator exactly like a failing system allocator",
-			refused.first().map(|l| l.trim_start_matches("#ALLOC-REFUSED ").to_string()).unwrap_or_else(|| "?".into()),
-			code,
-			sig
-		);
-	} else {
-		let _ = writeln!(sink, "#STAT probe merkleproof-read-prealloc: child did not abort");
 	}
 	let _ = sink.flush();
 }
